@@ -267,9 +267,11 @@ namespace via
           if (!error)
           {
             pointer->connected_ = true;
-            pointer->event_callback_(CONNECTED, ptr);
             pointer->set_socket_options();
-            pointer->enable_reception();
+            pointer->event_callback_(CONNECTED, ptr);
+            // Note: the connected handler may have disconnected the connection
+            if (!pointer->shutdown_sent_)
+              pointer->enable_reception();
           }
           else
           {
